@@ -33,7 +33,7 @@ func streamC07(c *Ctx) {
 	}
 	// two bulk writes that move documents into each other's selection, held until both have selected
 	for _, be := range []string{"bbolt", "badger-mem", "badger-disk"} {
-		if !c07CrossingWrites(c, be) || !c07QueuedWriters(c, be) {
+		if !c07CrossingWrites(c, be) || !c07QueuedWriters(c, be) || !c07ConcurrentClose(c, be) {
 			return
 		}
 	}
